@@ -361,6 +361,15 @@ func (c *Config) validateCircuitBreaker() error {
 		if c.CircuitBreaker.IntervalSeconds <= 0 {
 			return fmt.Errorf("circuit breaker interval must be positive (got %d)", c.CircuitBreaker.IntervalSeconds)
 		}
+		if c.CircuitBreaker.MaxRequests < 0 {
+			return fmt.Errorf("circuit breaker max requests must be non-negative (got %d)", c.CircuitBreaker.MaxRequests)
+		}
+		// The half-open state admits max_requests trials in total and closes after
+		// success_threshold successes: with fewer trials than that it can never close.
+		// 0 means "use the default", which is success_threshold.
+		if c.CircuitBreaker.MaxRequests > 0 && c.CircuitBreaker.MaxRequests < c.CircuitBreaker.SuccessThreshold {
+			return fmt.Errorf("circuit breaker max requests (%d) must be at least the success threshold (%d)", c.CircuitBreaker.MaxRequests, c.CircuitBreaker.SuccessThreshold)
+		}
 	}
 	return nil
 }
